@@ -21,6 +21,7 @@ import (
 	"foxverif/hx"
 
 	"github.com/tigerwill90/fox"
+	"github.com/tigerwill90/fox/clientip"
 )
 
 // ---------- capturing slog.Handler ----------
@@ -52,12 +53,12 @@ func (h capture) WithGroup(string) slog.Handler      { return h }
 // ---------- underlying writer (what net/http would put on the wire) ----------
 
 type uw struct {
-	hdr    http.Header
-	wrote  bool
-	status int
-	info   []int
-	sent   http.Header // snapshot of the header map when the status line was written
-	body   []byte
+	hdr     http.Header
+	wrote   bool
+	status  int
+	info    []int
+	sent    http.Header // snapshot of the header map when the status line was written
+	body    []byte
 	flushes int
 }
 
@@ -185,12 +186,12 @@ func (a act) String() string {
 type customPanic struct{ n int }
 
 var panicValues = []any{
-	errors.New("boom"),                            // 0
-	"a string",                                    // 1
-	&customPanic{7},                               // 2
-	http.ErrAbortHandler,                          // 3
+	errors.New("boom"),   // 0
+	"a string",           // 1
+	&customPanic{7},      // 2
+	http.ErrAbortHandler, // 3
 	fmt.Errorf("wrapped: %w", http.ErrAbortHandler), // 4
-	42,                                            // 5
+	42, // 5
 }
 
 var cur []act // script of the request being served (the harness is single threaded)
@@ -263,9 +264,48 @@ type resolution struct {
 	human string
 	ip    *net.IPAddr
 	err   error
+	real  fox.ClientIPResolver // a resolver of package clientip (nil: stub answering ip / err)
+	fails bool
 }
 
-func (r *resolution) ClientIP(fox.Context) (*net.IPAddr, error) { return r.ip, r.err }
+func (r *resolution) ClientIP(c fox.Context) (*net.IPAddr, error) {
+	if r.real != nil {
+		return r.real.ClientIP(c)
+	}
+	return r.ip, r.err
+}
+
+// resolvers of package clientip. What they answer is stated here by construction (requests carry
+// "X-Real-Ip: 203.0.113.50" and no other forwarding header), NOT read off the error they return: the
+// failure of a CONFIGURED resolver is a failure (ELeaf 9), whatever the error value wraps.
+const clientipFailure = "ResErr (ELeaf (9)%N)"
+const remotePlaceholder = "@REMOTE@"
+
+func must[T any](v T, err error) T {
+	hx.Fatal(err)
+	return v
+}
+
+func realResolvers() []*resolution {
+	missingHdr := must(clientip.NewSingleIPHeader("X-Client-Ip"))
+	leftmost := must(clientip.NewLeftmostNonPrivate(clientip.XForwardedForKey, 10))
+	rightmost := must(clientip.NewRightmostNonPrivate(clientip.ForwardedKey))
+	realIP := must(clientip.NewSingleIPHeader("X-Real-Ip"))
+	mk := func(name string, r fox.ClientIPResolver, coq string) *resolution {
+		return &resolution{coq: coq, human: "clientip." + name, real: r, fails: coq == clientipFailure}
+	}
+	return []*resolution{
+		mk("NewChain() [empty]", clientip.NewChain(), clientipFailure),
+		mk("NewChain(SingleIPHeader(X-Client-Ip), LeftmostNonPrivate(XFF)) [all members fail]", clientip.NewChain(missingHdr, leftmost), clientipFailure),
+		mk("NewChain(NewChain()) [nested empty]", clientip.NewChain(clientip.NewChain()), clientipFailure),
+		mk("RightmostNonPrivate(Forwarded) [header absent]", rightmost, clientipFailure),
+		mk("SingleIPHeader(X-Client-Ip) [header absent]", missingHdr, clientipFailure),
+		mk("LeftmostNonPrivate(XFF) [header absent]", leftmost, clientipFailure),
+		mk("RemoteAddr", clientip.NewRemoteAddr(), "ResOk "+remotePlaceholder),
+		mk("NewChain(SingleIPHeader(X-Client-Ip), RemoteAddr)", clientip.NewChain(missingHdr, clientip.NewRemoteAddr()), "ResOk "+remotePlaceholder),
+		mk("SingleIPHeader(X-Real-Ip)", realIP, "ResOk "+hx.Bytes("203.0.113.50")),
+	}
+}
 
 func okRes(ip, zone, str string) *resolution {
 	return &resolution{coq: "ResOk " + hx.Bytes(str), human: "ok(" + str + ")", ip: &net.IPAddr{IP: net.ParseIP(ip), Zone: zone}}
@@ -419,7 +459,7 @@ func serve(f *fox.Router, w *world, rq reqSpec, host string, rm remote, script [
 	u := newUW()
 	pu, _ := url.ParseRequestURI(rq.target)
 	req := &http.Request{Method: rq.method, URL: pu, Proto: "HTTP/1.1", ProtoMajor: 1, ProtoMinor: 1,
-		Header: http.Header{}, Host: host, RemoteAddr: rm.addr, RequestURI: rq.target, Body: http.NoBody}
+		Header: http.Header{"X-Real-Ip": {"203.0.113.50"}}, Host: host, RemoteAddr: rm.addr, RequestURI: rq.target, Body: http.NoBody}
 	req = req.WithContext(context.Background())
 	o := observed{panicID: -1}
 	func() {
@@ -597,35 +637,59 @@ func main() {
 	if tier == "thorough" {
 		nconf, nrand = 60, 40
 	}
-	for ci := 0; ci < nconf; ci++ {
+	reals := realResolvers()
+	nreal := 2 * len(reals)
+	for ci := 0; ci < nconf+nreal; ci++ {
 		var cfg config
+		light := false
+		if ci >= nconf {
+			// resolvers of package clientip, router-wide (even index) or on the routes (odd index) under a
+			// router-wide stub; few scripts each (the resolver, not the handler, is the point)
+			r := reals[(ci-nconf)/2]
+			light = tier != "thorough"
+			if (ci-nconf)%2 == 0 {
+				cfg.glob = r
+				cfg.rtMode = (ci / 2) % 2 // inherit or nil
+			} else {
+				if ci%4 == 1 {
+					cfg.glob = okRes("203.0.113.7", "", "203.0.113.7")
+				}
+				cfg.rtMode, cfg.rt = 2, r
+			}
+			cfg.special = ci%3 == 0
+		}
 		// the first configurations enumerate the resolver lattice; the rest is random
-		switch ci {
-		case 0:
-		case 1:
-			cfg.glob = okRes("203.0.113.7", "", "203.0.113.7")
-		case 2:
-			cfg.glob = errRes(errTree{"ELeaf " + hx.N(5), errBoom})
-			cfg.special = true
-		case 3:
-			cfg.glob = okRes("203.0.113.7", "", "203.0.113.7")
-			cfg.rtMode = 1
-			cfg.special = true
-		case 4:
-			cfg.rtMode, cfg.rt = 2, errRes(errTree{"EWrap (ELeaf " + hx.N(0) + ")", fmt.Errorf("delegate: %w", fox.ErrNoClientIPResolver)})
-		case 5:
-			cfg.glob = errRes(errTree{"ELeaf " + hx.N(5), errBoom})
-			cfg.rtMode, cfg.rt = 2, okRes("2001:db8::1", "", "2001:db8::1")
-			cfg.special = true
+		switch {
+		case ci >= nconf:
+			// configured above
 		default:
-			if rnd.Pct(70) {
-				cfg.glob = genRes(rnd)
+			switch ci {
+			case 0:
+			case 1:
+				cfg.glob = okRes("203.0.113.7", "", "203.0.113.7")
+			case 2:
+				cfg.glob = errRes(errTree{"ELeaf " + hx.N(5), errBoom})
+				cfg.special = true
+			case 3:
+				cfg.glob = okRes("203.0.113.7", "", "203.0.113.7")
+				cfg.rtMode = 1
+				cfg.special = true
+			case 4:
+				cfg.rtMode, cfg.rt = 2, errRes(errTree{"EWrap (ELeaf " + hx.N(0) + ")", fmt.Errorf("delegate: %w", fox.ErrNoClientIPResolver)})
+			case 5:
+				cfg.glob = errRes(errTree{"ELeaf " + hx.N(5), errBoom})
+				cfg.rtMode, cfg.rt = 2, okRes("2001:db8::1", "", "2001:db8::1")
+				cfg.special = true
+			default:
+				if rnd.Pct(70) {
+					cfg.glob = genRes(rnd)
+				}
+				cfg.rtMode = rnd.Intn(3)
+				if cfg.rtMode == 2 {
+					cfg.rt = genRes(rnd)
+				}
+				cfg.special = rnd.Bool()
 			}
-			cfg.rtMode = rnd.Intn(3)
-			if cfg.rtMode == 2 {
-				cfg.rt = genRes(rnd)
-			}
-			cfg.special = rnd.Bool()
 		}
 		w := &world{}
 		withL := build(cfg, w, true)
@@ -655,7 +719,11 @@ func main() {
 						}
 					}
 				}
-				for i := 0; i < nrand; i++ {
+				nr := nrand
+				if light {
+					nr = 3
+				}
+				for i := 0; i < nr; i++ {
 					scripts = append(scripts, genScript(rnd))
 				}
 			} else {
@@ -689,14 +757,15 @@ func main() {
 					mscript = append(mscript, act{kind: aWriteHeader, code: b.status})
 				}
 				acts := hx.ListOf(mscript, func(a act) string { return a.coq() })
-				key := fmt.Sprintf("%s|%s|%s|%s|%s|%s|%s|%s|%s", cfg.globCoq(), cfg.rtCoq(), rq.kind, rq.method, rq.target, host, rm.addr, acts, hx.Bool(cfg.special))
+				gc, rc := strings.ReplaceAll(cfg.globCoq(), remotePlaceholder, hx.Bytes(rm.ip)), strings.ReplaceAll(cfg.rtCoq(), remotePlaceholder, hx.Bytes(rm.ip))
+				key := fmt.Sprintf("%s|%s|%s|%s|%s|%s|%s|%s|%s", gc, rc, rq.kind, rq.method, rq.target, host, rm.addr, acts, hx.Bool(cfg.special))
 				if seen[key] {
 					continue
 				}
 				seen[key] = true
 				pan := hx.Opt(o.panicID >= 0, hx.N(uint64(max(o.panicID, 0))))
 				term := fmt.Sprintf("(mk %s %s %s %s %s %s %s %s %s %s %s %s %s %s)",
-					rq.kind, cfg.globCoq(), cfg.rtCoq(), hx.Bytes(rq.method), hx.Bytes(host), hx.Bytes(rq.path), hx.Bytes(rm.ip),
+					rq.kind, gc, rc, hx.Bytes(rq.method), hx.Bytes(host), hx.Bytes(rq.path), hx.Bytes(rm.ip),
 					acts, hx.ListOf(o.recs, func(r rec) string { return "(" + recCoq(r) + ")" }), pan,
 					hx.Z(int64(o.status)), hx.Bytes(o.location), hx.Bool(same), hx.Bool(o.after))
 				var hs []string
@@ -723,7 +792,10 @@ func main() {
 				}
 				gl := "none"
 				if cfg.glob != nil {
-					gl = map[bool]string{true: "ok", false: "err"}[cfg.glob.err == nil]
+					gl = map[bool]string{true: "ok", false: "err"}[cfg.glob.err == nil && !cfg.glob.fails]
+					if cfg.glob.real != nil {
+						gl = "clientip-" + gl
+					}
 				}
 				st.Count("global-resolver:" + gl)
 				st.Count(fmt.Sprintf("route-resolver-mode:%d", cfg.rtMode))
